@@ -15,15 +15,15 @@ import (
 var c06Addrs = [][]uint{{1}, {2}, {1, 1}, {1, 2}}
 
 type c06Data struct {
-	pr        *Proto
-	ev        *EventLog
-	wantAdd   map[string]int // peer|entity -> expected number of entity-added events
-	wantRem   map[string]int
-	removed   map[string]bool // peer|entity ever removed after the prefix
-	grants    []RegKey        // subscriptions granted in the prefix ("sub") ...
-	bgrants   []RegKey        // ... and bindings
-	refs      []*clientRef
-	mismatch  int
+	pr       *Proto
+	ev       *EventLog
+	wantAdd  map[string]int // peer|entity -> expected number of entity-added events
+	wantRem  map[string]int
+	removed  map[string]bool // peer|entity ever removed after the prefix
+	grants   []RegKey        // subscriptions granted in the prefix ("sub") ...
+	bgrants  []RegKey        // ... and bindings
+	refs     []*clientRef
+	mismatch int
 }
 
 // genEntity builds a fresh entity for the peer's model.
